@@ -1,7 +1,51 @@
 (* The recursive table walk (Table.dependencies): termination on every world, soundness and
    completeness with respect to reachability. *)
 From Coq Require Import Lia.
-From Eupsv Require Import Base.Base Base.BaseLemmas Model.Graph Proofs.GraphLib.
+From Eupsv Require Import Base.Base Base.BaseLemmas Model.Graph Proofs.GraphLib Proofs.GraphLayers.
+
+(* productDictionary as a graph *)
+Lemma gedge_cons k l (m : graph) a b : gedge ((k, l) :: m) a b <-> (a = k /\ In b l) \/ gedge m a b.
+Proof.
+  unfold gedge. simpl. split.
+  - intros [ss [[Q | I1] I2]]; [inversion Q; subst; auto | right; exists ss; auto].
+  - intros [[-> I] | [ss [I1 I2]]]; [exists l; auto | exists ss; auto].
+Qed.
+
+Lemma gedge_pd_add k t m a b : gedge (pd_add_l k t m) a b <-> gedge m a b \/ (a = k /\ b = t).
+Proof.
+  induction m as [|[k' l] m IH]; simpl.
+  - rewrite gedge_cons. simpl. unfold gedge. simpl. split.
+    + intros [[-> [<- | []]] | [ss [[] _]]]. auto.
+    + intros [[ss [[] _]] | [-> ->]]. auto.
+  - destruct (node_eqb k k') eqn:E.
+    + apply node_eqb_eq in E. subst k'. rewrite !gedge_cons, in_app_iff. simpl. intuition (subst; auto).
+    + rewrite !gedge_cons, IH. intuition.
+Qed.
+
+Lemma gkeys_pd_add k t m x : In x (gkeys (pd_add_l k t m)) <-> In x (gkeys m) \/ x = k.
+Proof.
+  unfold gkeys. induction m as [|[k' l] m IH]; simpl.
+  - intuition.
+  - destruct (node_eqb k k') eqn:E; simpl.
+    + apply node_eqb_eq in E. subst. intuition.
+    + rewrite IH. intuition.
+Qed.
+
+Lemma gedge_pd_ensure k m a b : gedge (pd_ensure_l k m) a b <-> gedge m a b.
+Proof.
+  induction m as [|[k' l] m IH]; simpl.
+  - rewrite gedge_cons. simpl. unfold gedge. simpl. split; [intros [[_ []] | H]; exact H | auto].
+  - destruct (node_eqb k k') eqn:E; [reflexivity|]. rewrite !gedge_cons, IH. reflexivity.
+Qed.
+
+Lemma gkeys_pd_ensure k m x : In x (gkeys (pd_ensure_l k m)) <-> In x (gkeys m) \/ x = k.
+Proof.
+  unfold gkeys. induction m as [|[k' l] m IH]; simpl.
+  - intuition.
+  - destruct (node_eqb k k') eqn:E; simpl.
+    + apply node_eqb_eq in E. subst. intuition.
+    + rewrite IH. intuition.
+Qed.
 
 Section Walk.
   Variable w : world.
@@ -62,7 +106,7 @@ Section Walk.
   Qed.
 
   (* what one call of the walk guarantees *)
-  Record walk_ok (st : wstate) (es : list edge) (out : list entry) (st' : wstate) : Prop := {
+  Record walk_ok (tp : node) (st : wstate) (es : list edge) (out : list entry) (st' : wstate) : Prop := {
     wo_mono : incl (vis st) (vis st');
     wo_new : forall x, In x (vis st') -> ~ In x (vis st) ->
              forall es_x e, node_table w x = Some es_x -> In e es_x -> In (tg e) (map enode out);
@@ -70,71 +114,117 @@ Section Walk.
     wo_vis : forall t, In t (map enode out) -> nreal t = true -> In t (vis st');
     wo_sound : forall R : node -> Prop,
         (forall e, In e es -> R (tg e)) -> (forall x y, R x -> stepP x y -> R y) ->
-        forall t, In t (map enode out) -> R t
+        forall t, In t (map enode out) -> R t;
+    wo_emitted : forall x, In x (vis st') -> ~ In x (vis st) -> In x (map enode out);
+    (* productDictionary *)
+    wo_pd_mono : forall k s, gedge (pd st) k s -> gedge (pd st') k s;
+    wo_pd_sound : forall k s, gedge (pd st') k s ->
+        gedge (pd st) k s \/ (k = tp /\ exists e, In e es /\ s = tg e) \/
+        (In k (vis st') /\ ~ In k (vis st) /\ stepP k s);
+    wo_pd_lines : forall e, In e es -> gedge (pd st') tp (tg e);
+    wo_pd_new : forall x, In x (vis st') -> ~ In x (vis st) ->
+        forall es_x e, node_table w x = Some es_x -> In e es_x -> gedge (pd st') x (tg e);
+    wo_pd_keys : forall k, In k (gkeys (pd st')) ->
+        In k (gkeys (pd st)) \/ k = tp \/ (In k (vis st') /\ ~ In k (vis st))
   }.
 
   Definition rec_ok (rec : node -> nat -> list edge -> wstate -> res (list entry * wstate)) (n : nat) : Prop :=
     forall t d es st, unvisited st < n ->
-      exists out st', rec t d es st = Ok (out, st') /\ walk_ok st es out st'.
+      exists out st', rec t d es st = Ok (out, st') /\ walk_ok t st es out st'.
 
   Lemma vis_pd_add k t st : vis (pd_add k t st) = vis st.
   Proof. reflexivity. Qed.
   Lemma vis_pd_ensure k st : vis (pd_ensure k st) = vis st.
   Proof. reflexivity. Qed.
 
+  (* the effect of handling one line before the rest of the loop: the recursive call, if any *)
+  Record sub_ok (st : wstate) (t : node) (l1 : list entry) (st2 : wstate) : Prop := {
+    so_mono : incl (vis st) (vis st2);
+    so_vis : nreal t = true -> In t (vis st2);
+    so_new : forall x, In x (vis st2) -> ~ In x (vis st) ->
+             forall es_x e', node_table w x = Some es_x -> In e' es_x -> In (tg e') (map enode l1);
+    so_out_vis : forall q, In q (map enode l1) -> nreal q = true -> In q (vis st2);
+    so_sound : forall R : node -> Prop, R t -> (forall x y, R x -> stepP x y -> R y) ->
+               forall q, In q (map enode l1) -> R q;
+    so_emitted : forall x, In x (vis st2) -> ~ In x (vis st) -> x = t \/ In x (map enode l1);
+    so_pd_mono : forall k s, gedge (pd st) k s -> gedge (pd st2) k s;
+    so_pd_sound : forall k s, gedge (pd st2) k s ->
+                  gedge (pd st) k s \/ (In k (vis st2) /\ ~ In k (vis st) /\ stepP k s);
+    so_pd_new : forall x, In x (vis st2) -> ~ In x (vis st) ->
+                forall es_x e', node_table w x = Some es_x -> In e' es_x -> gedge (pd st2) x (tg e');
+    so_pd_keys : forall k, In k (gkeys (pd st2)) -> In k (gkeys (pd st)) \/ (In k (vis st2) /\ ~ In k (vis st))
+  }.
+
+  Lemma sub_call_ok rec n : rec_ok rec n -> forall t depth st, unvisited st <= n ->
+    exists l1 st2,
+      (if nreal t && negb (mem_node t (vis st))
+       then match node_table w t with
+            | Some es' => rec t (S depth) es' (pd_ensure t (mark t st))
+            | None => Ok ([], mark t st)
+            end
+       else Ok ([], st)) = Ok (l1, st2) /\ sub_ok st t l1 st2.
+  Proof.
+    intros Hrec t depth st Hn.
+    destruct (nreal t) eqn:Hr; simpl.
+    2:{ exists [], st. split; [reflexivity|]. constructor; try (intros; simpl in *; tauto); try apply incl_refl. intros; congruence. }
+    destruct (mem_node t (vis st)) eqn:Hm; simpl.
+    { apply mem_node_In in Hm. exists [], st. split; [reflexivity|].
+      constructor; try (intros; simpl in *; tauto). apply incl_refl. }
+    apply mem_node_not_In in Hm.
+    destruct (node_table w t) as [es'|] eqn:Ht.
+    - assert (Hlt : unvisited (pd_ensure t (mark t st)) < n).
+      { pose proof (unvisited_mark t st (node_table_world_nodes _ _ _ Ht) Hm).
+        unfold unvisited in *. simpl in *. lia. }
+      destruct (Hrec t (S depth) es' _ Hlt) as [l1 [st2 [E Hok]]].
+      exists l1, st2. split; [exact E|].
+      destruct Hok as [M N L V S Em P1 P2 P3 P4 P5]. simpl in M, N, Em, P1, P2, P4, P5.
+      assert (Hnew : forall x, In x (vis st2) -> ~ In x (vis st) -> x = t \/ (x <> t /\ ~ (t = x \/ In x (vis st)))).
+      { intros x Hx Hnx. destruct (node_eq_dec x t) as [-> | Ne]; [auto|]. right. split; [exact Ne|].
+        intros [Q | Q]; [congruence | tauto]. }
+      constructor.
+      + intros x Hx. apply M. simpl. auto.
+      + intros _. apply M. simpl. auto.
+      + intros x Hx Hnx es_x e' Tx Ie. destruct (Hnew x Hx Hnx) as [-> | [Ne Nn]].
+        * rewrite Ht in Tx. inversion Tx. subst. apply L, Ie.
+        * apply (N x Hx Nn es_x); auto.
+      + exact V.
+      + intros R Rt Rc q Hq. apply (S R); auto.
+        intros e' Ie. apply (Rc t); auto. exists es', e'. auto.
+      + intros x Hx Hnx. destruct (Hnew x Hx Hnx) as [-> | [Ne Nn]]; [auto|]. right. apply Em; auto.
+      + intros k s H. apply P1. apply (proj2 (gedge_pd_ensure _ _ _ _)). exact H.
+      + intros k s H. destruct (P2 k s H) as [H1 | [[-> [e' [Ie ->]]] | [H1 [H2 H3]]]].
+        * left. apply (proj1 (gedge_pd_ensure _ _ _ _)) in H1. exact H1.
+        * right. split; [apply M; simpl; auto|]. split; [exact Hm|]. exists es', e'. auto.
+        * right. split; [exact H1|]. split; [tauto | exact H3].
+      + intros x Hx Hnx es_x e' Tx Ie. destruct (Hnew x Hx Hnx) as [-> | [Ne Nn]].
+        * rewrite Ht in Tx. inversion Tx. subst. apply P3, Ie.
+        * apply (P4 x Hx Nn es_x); auto.
+      + intros k H. destruct (P5 k H) as [H1 | [-> | [H1 H2]]].
+        * apply (proj1 (gkeys_pd_ensure _ _ _)) in H1. destruct H1 as [H1 | ->]; [auto|]. right. split; [apply M; simpl; auto | exact Hm].
+        * right. split; [apply M; simpl; auto | exact Hm].
+        * right. split; [exact H1 | tauto].
+    - exists [], (mark t st). split; [reflexivity|]. constructor; simpl; try (intros; tauto).
+      + intros x Hx. simpl. auto.
+      + intros x [<- | Hx] Hnx es_x e' Tx Ie; [congruence | tauto].
+      + intros x [<- | Hx] Hnx; tauto.
+      + intros x [<- | Hx] Hnx es_x e' Tx Ie; [congruence | tauto].
+  Qed.
+
   Lemma walk_lines_ok rec n :
     rec_ok rec n ->
     forall es tp depth st, unvisited st <= n ->
-      exists out st', walk_lines w pins rec tp depth es st = Ok (out, st') /\ walk_ok st es out st'.
+      exists out st', walk_lines w pins rec tp depth es st = Ok (out, st') /\ walk_ok tp st es out st'.
   Proof.
     intros Hrec. induction es as [|e r IH]; intros tp depth st Hn.
     - exists [], st. split; [reflexivity|]. constructor; simpl; try tauto. apply incl_refl.
     - cbn [walk_lines]. fold (tg e). set (t := tg e).
-      (* the sub-call *)
-      assert (Hsub : exists l1 st2,
-                 (if nreal t && negb (mem_node t (vis st))
-                  then match node_table w t with
-                       | Some es' => rec t (S depth) es' (pd_ensure t (mark t st))
-                       | None => Ok ([], mark t st)
-                       end
-                  else Ok ([], st)) = Ok (l1, st2) /\
-                 incl (vis st) (vis st2) /\
-                 (nreal t = true -> In t (vis st2)) /\
-                 (forall x, In x (vis st2) -> ~ In x (vis st) ->
-                    forall es_x e', node_table w x = Some es_x -> In e' es_x -> In (tg e') (map enode l1)) /\
-                 (forall q, In q (map enode l1) -> nreal q = true -> In q (vis st2)) /\
-                 (forall R : node -> Prop, R t -> (forall x y, R x -> stepP x y -> R y) ->
-                    forall q, In q (map enode l1) -> R q)).
-      { destruct (nreal t) eqn:Hr; simpl.
-        2:{ exists [], st. repeat split; try (intros; simpl in *; tauto); try apply incl_refl. discriminate. }
-        destruct (mem_node t (vis st)) eqn:Hm; simpl.
-        { apply mem_node_In in Hm. exists [], st. repeat split; try (intros; simpl in *; tauto). apply incl_refl. }
-        apply mem_node_not_In in Hm.
-        destruct (node_table w t) as [es'|] eqn:Ht.
-        - assert (Hlt : unvisited (pd_ensure t (mark t st)) < n).
-          { pose proof (unvisited_mark t st (node_table_world_nodes _ _ _ Ht) Hm).
-            unfold unvisited in *. simpl in *. lia. }
-          destruct (Hrec t (S depth) es' _ Hlt) as [l1 [st2 [E Hok]]].
-          exists l1, st2. split; [exact E|]. destruct Hok as [M N L V S].
-          simpl in M. repeat split.
-          + intros x Hx. apply M. simpl. auto.
-          + intros _. apply M. simpl. auto.
-          + intros x Hx Hnx es_x e' Tx Ie.
-            destruct (node_eq_dec x t) as [-> | Ne].
-            * rewrite Ht in Tx. inversion Tx. subst. apply L, Ie.
-            * apply (N x Hx) with (es_x := es_x); auto. simpl. intros [Q | Q]; [congruence | tauto].
-          + exact V.
-          + intros R Rt Rc q Hq. apply (S R); auto.
-            intros e' Ie. apply (Rc t); auto. exists es', e'. auto.
-        - exists [], (mark t st). repeat split; try (intros; simpl in *; tauto).
-          + intros x Hx. simpl. auto.
-          + intros x Hx Hnx es_x e' Tx Ie. simpl in Hx. destruct Hx as [<- | Hx]; [congruence | tauto]. }
-      destruct Hsub as [l1 [st2 [E [M2 [V2 [N2 [Q2 S2]]]]]]]. rewrite E.
+      destruct (sub_call_ok rec n Hrec t depth st Hn) as [l1 [st2 [E Hs]]]. rewrite E.
+      destruct Hs as [M2 V2 N2 Q2 S2 E2 A1 A2 A3 A4].
       assert (Hn2 : unvisited (pd_add tp t st2) <= n).
       { pose proof (unvisited_mono st st2 M2). unfold unvisited in *. simpl in *. lia. }
       destruct (IH tp depth (pd_add tp t st2) Hn2) as [l2 [st3 [E3 Hok3]]]. rewrite E3.
       exists ((t, eopt e, depth) :: l1 ++ l2), st3. split; [reflexivity|].
-      destruct Hok3 as [M3 N3 L3 V3 S3]. simpl in M3, N3.
+      destruct Hok3 as [M3 N3 L3 V3 S3 Em3 B1 B2 B3 B4 B5]. simpl in M3, N3, Em3, B1, B2, B4, B5.
       constructor.
       + intros x Hx. apply M3, M2, Hx.
       + intros x Hx Hnx es_x e' Tx Ie. simpl. rewrite map_app, in_app_iff. right.
@@ -144,14 +234,37 @@ Section Walk.
       + intros e' [<- | Ie]; simpl; [left; reflexivity|]. right. rewrite map_app, in_app_iff. right. apply L3, Ie.
       + intros q Hq Hr. simpl in Hq. rewrite map_app, in_app_iff in Hq.
         destruct Hq as [<- | [Hq | Hq]].
-        * apply M3. simpl. apply V2, Hr.
-        * apply M3. simpl. apply Q2; auto.
+        * apply M3. apply V2, Hr.
+        * apply M3. apply Q2; auto.
         * apply V3; auto.
       + intros R Rl Rc q Hq. simpl in Hq. rewrite map_app, in_app_iff in Hq.
         destruct Hq as [<- | [Hq | Hq]].
         * apply Rl. simpl. auto.
         * apply (S2 R); auto. apply Rl. simpl. auto.
         * apply (S3 R); auto. intros e' Ie. apply Rl. simpl. auto.
+      + intros x Hx Hnx. simpl. rewrite map_app, in_app_iff.
+        destruct (in_dec node_eq_dec x (vis st2)) as [I2 | I2].
+        * destruct (E2 x I2 Hnx) as [-> | H]; auto.
+        * right. right. apply Em3; auto.
+      + intros k s H. apply B1. apply (proj2 (gedge_pd_add _ _ _ _ _)). left. apply A1, H.
+      + intros k s H. destruct (B2 k s H) as [H1 | [[-> [e' [Ie ->]]] | [H1 [H2 H3]]]].
+        * apply (proj1 (gedge_pd_add _ _ _ _ _)) in H1. destruct H1 as [H1 | [-> ->]].
+          -- destruct (A2 k s H1) as [H0 | [H0 [H0' H0'']]]; [auto|]. right. right. split; [apply M3, H0 | auto].
+          -- right. left. split; [reflexivity|]. exists e. simpl. auto.
+        * right. left. split; [reflexivity|]. exists e'. simpl. auto.
+        * right. right. split; [exact H1|]. split; [intros Q; apply H2, M2, Q | exact H3].
+      + intros e' [<- | Ie].
+        * apply B1. apply (proj2 (gedge_pd_add _ _ _ _ _)). right. auto.
+        * apply B3, Ie.
+      + intros x Hx Hnx es_x e' Tx Ie.
+        destruct (in_dec node_eq_dec x (vis st2)) as [I2 | I2].
+        * apply B1. apply (proj2 (gedge_pd_add _ _ _ _ _)). left. eapply A3; eauto.
+        * eapply B4; eauto.
+      + intros k H. destruct (B5 k H) as [H1 | [-> | [H1 H2]]].
+        * apply (proj1 (gkeys_pd_add _ _ _ _)) in H1. destruct H1 as [H1 | ->]; [|auto].
+          destruct (A4 k H1) as [H0 | [H0 H0']]; [auto|]. right. right. split; [apply M3, H0 | exact H0'].
+        * auto.
+        * right. right. split; [exact H1 | intros Q; apply H2, M2, Q].
   Qed.
 
   Lemma walk_ok_all fuel : rec_ok (walk fuel w pins) fuel.
